@@ -432,6 +432,26 @@ func (g *Gen) transCall(x *Expr, env *Env) TV {
 	case "fmtany":
 		a := g.trans(x.Args[0], env)
 		return TV{"(fmt.any " + a.T + ")", SStr, types.Typ[types.String]}
+	case "kept":
+		// kept("A.string"): every object that was allocated on entry has the same content in this heap
+		if env.old == nil {
+			panic(specErr(x, "kept() needs a pre-state"))
+		}
+		n := x.Args[0].Str
+		g.ensureHeapSortByName(n)
+		if _, ok := g.heapSort[n]; !ok {
+			return TV{"true", SBool, nil}
+		}
+		cur, old := env.heap(n), env.old.heap(n)
+		al0 := env.old.heap(g.allocHeap())
+		return TV{"(forall ((r Int)) (! (=> (<= (atime r) " + al0 + ") (= (select " + cur + " r) (select " + old + " r))) :pattern ((select " + cur + " r))))", SBool, nil}
+	case "freshslice":
+		// freshslice(s): s is nil or its backing array was allocated after entry
+		a := g.trans(x.Args[0], env)
+		if env.old == nil {
+			panic(specErr(x, "freshslice() needs a pre-state"))
+		}
+		return TV{or(eq("(sl_arr "+a.T+")", "0"), "(> (atime (sl_arr "+a.T+")) "+env.old.heap(g.allocHeap())+")"), SBool, nil}
 	case "as":
 		// as(x, "*pkg.Type"): view a reference (e.g. an interface value) at a concrete type
 		a := g.trans(x.Args[0], env)
